@@ -7,13 +7,18 @@ build_operator_operand_fixup and function_helpers.cse_array_wrapper (through
 apply_meta).  Oracle: the property's statement evaluated on the implementation
 alone (pointwise values through the scalar operator / scalar call; target shape
 by the sentence "trimmed / repeated / #N/A"), also end to end on workbooks with
-array formulas entered over target ranges."""
+array formulas entered over target ranges.  The member-cell model
+(Model/CseCells.v: load_array_formulas / cell_to_formula / _evaluate_range /
+eval_func / INDEX / _evaluate) is tied to ExcelCompiler on the same workbooks:
+the formula's result array and the target shape -> the value of EVERY cell of the
+target (stream e2e:cells), and the numbers and range written into every member
+cell (stream e2e:sheet)."""
 import itertools
 
 from harness.common import (canon, dec_res, enc_val, ensure_impl_on_path, known_predicate,
                             run_impl, same)
 
-GEN_MODULES = ['excelutil', 'arrayfit']
+GEN_MODULES = ['excelutil', 'arrayfit', 'lookup']
 EXTRA_TARGETS = ['Refuted/C13_scalar_error.vo']
 EXPLANATION = (
     "fit_to_range is translated from excelutil.py on every run (Gen/arrayfit.v) and proved equal to the "
@@ -22,7 +27,11 @@ EXPLANATION = (
     "are hand-modelled in Model/Arrays.v; their pointwise theorems hold for all shapes and, for the wrapper, "
     "for an arbitrary wrapped function; the tie to the code is the differential run (all operand shape pairs "
     "and all result x target shapes up to 4x4, sampled values).  The CSE pipeline of excelwrapper / "
-    "excelcompiler is exercised end to end on generated workbooks (oracle only).")
+    "excelcompiler (member cell = INDEX(fit(result), i, j)) is modelled in Model/CseCells.v; "
+    "C13_member_shows_own_element / C13_member_cells / C13_formula_op_member / C13_formula_fun_member hold "
+    "for all result shapes, target shapes and member positions; the model is compared with ExcelCompiler on "
+    "every cell of every target of the generated workbooks (value side) and on the texts written into the "
+    "member cells (sheet side); the end-to-end oracle stays.")
 
 OPS = ['Add', 'Sub', 'Mult', 'Div', 'Pow', 'BitAnd', 'USub', 'Eq', 'NotEq', 'Lt', 'LtE', 'Gt', 'GtE']
 OP_TEXT = {'Add': '+', 'Sub': '-', 'Mult': '*', 'Div': '/', 'Pow': '^', 'BitAnd': '&', 'Eq': '=',
@@ -40,7 +49,10 @@ ASSUMPTIONS = [
     "the least position, which is what CPython's set iteration gives for positions below 8",
     "exact arithmetic: numeric elements are integers below 2^26 or dyadic fractions",
     "the CSE pipeline of excelwrapper/excelcompiler (CSE_INDEX expansion, member = index(range, i, j)) is "
-    "covered by the end-to-end oracle only, not by a Coq model",
+    "hand-modelled in Model/CseCells.v on numbers, not on formula text: parsing '=CSE_INDEX(...)' / "
+    "'=index(...)' and compiling the formulas are outside the model; what the array formula's compiled code "
+    "returns is a parameter (Model/Arrays.v for operators and lifted functions); INDEX inside its wrappers "
+    "is Model/Lookup.v X_index (C16's model); the tie is the differential run on every cell of every target",
 ]
 
 
@@ -418,6 +430,7 @@ def end_to_end(ctx, fixup, FUNCS):
         for sh in ctx.rng.sample(SHAPES, ctx.n(4, 16)):
             plans.append((name, sh, ctx.rng.choice([None, sh])))
     model_calls, checks = [], []
+    cell_calls, sheet_calls = [], []
     for plan in plans:
         kind, sa, sb = plan
         for rep in range(ctx.n(2, 6)):
@@ -448,6 +461,9 @@ def end_to_end(ctx, fixup, FUNCS):
 
                 def scalar(r, c):
                     return run_impl(fixup, belem(a, r, c), o, belem(b, r, c))
+
+                def whole():                  # what the formula's compiled code returns
+                    return fixup(a, o, b)
             else:
                 f = FUNCS[kind][0]
                 xl = {'mod': 'MOD', 'left': 'LEFT', 'round_': 'ROUND', 'if_': 'IF'}[kind]
@@ -458,10 +474,18 @@ def end_to_end(ctx, fixup, FUNCS):
                 def scalar(r, c):
                     xs = [belem(a, r, c), belem(b, r, c)] + (['n'] if kind == 'if_' else [])
                     return run_impl(f, *xs)
+
+                def whole():
+                    return f(a, b, *(['n'] if kind == 'if_' else []))
             sh = bshape(shape_of(a), shape_of(b)) or (1, 1)
             point = [[scalar(r, c) for c in range(sh[1])] for r in range(sh[0])]
             if any(x[0] != 'ok' for row in point for x in row):
                 continue
+            try:
+                raw_whole, whole_ok = whole(), True
+                enc_val(raw_whole)
+            except Exception:      # noqa: BLE001
+                raw_whole, whole_ok = None, False
             point = tuple(tuple(x[1] for x in row) for row in point)
             targets = {}
             for (h, w) in SHAPES:
@@ -475,10 +499,23 @@ def end_to_end(ctx, fixup, FUNCS):
                 ctx.violation(dict(call='array-formula', args=args, formula=formula),
                               f"workbook with array formulas does not compile: {type(exc).__name__}")
                 continue
+            sheet_sample = set(ctx.rng.sample(sorted(targets), ctx.n(2, 6)))
             for (h, w), (r0, c0, ref) in targets.items():
                 case = dict(call='array-formula', args=args, formula=formula, target=ref)
                 want = fit_statement(point, h, w)
                 got = run_impl(comp.evaluate, f'Sheet!{ref}')
+                # ---- the member-cell model, value side: every cell of the target
+                if whole_ok:
+                    cells = [[run_impl(comp.evaluate, f'Sheet!{col(c0 + j)}{r0 + i}') for j in range(w)]
+                             for i in range(h)]
+                    bad = [x for row in cells for x in row if x[0] != 'ok']
+                    im_cells = bad[0] if bad else ('ok', tuple(tuple(x[1] for x in row) for row in cells))
+                    cell_calls.append((dict(call='target-cells', args=args, formula=formula, target=ref,
+                                            result=canon(raw_whole)), raw_whole, h, w, im_cells))
+                # ---- … sheet side: the numbers / range written into the member cells
+                if (h, w) in sheet_sample and (h, w) != (1, 1):
+                    sheet_calls.append((dict(call='load-members', args=[r0, c0, h, w], target=ref),
+                                        (r0, c0, h, w), run_impl(sheet_side, comp, r0, c0, h, w)))
                 ctx.count(('e2e', formula, repr(a), repr(b), ref), kind=f'e2e:{kind}',
                           sample=dict(case, impl=got))
                 if got != ('ok', canon(squeeze(want))):
@@ -499,6 +536,24 @@ def end_to_end(ctx, fixup, FUNCS):
                     if gm != ('ok', wm) and not (wm is None and gm == ('ok', 0)):
                         ctx.violation(dict(case, member=member), "member cell does not show its own element",
                                       impl=gm, expected=wm)
+    # the member-cell model against the compiler: same (result array, target shape) -> every cell
+    if ctx.model and cell_calls:
+        ms = [dec_res(x) for x in ctx.model.batch(
+            [('target_cells', [h, w, enc_val(res)]) for _, res, h, w, _ in cell_calls])]
+        for (case, res, h, w, im), m in zip(cell_calls, ms):
+            ctx.count(('e2e-cells', case['formula'], repr(case['args']), case['target']),
+                      kind='e2e:cells' if (h, w) != (1, 1) else 'e2e:cells-1x1', sample=dict(case, impl=im))
+            if not skip_model(m) and not same(m, im):
+                ctx.divergence(case, im, m, 'Model/CseCells.v target_cells (h, w) result = the cells of the '
+                                            'array formula\'s range as ExcelCompiler evaluates them')
+    if ctx.model and sheet_calls:
+        ms = [dec_res(x) for x in ctx.model.batch(
+            [('load_members', list(key)) for _, key, _ in sheet_calls])]
+        for (case, key, im), m in zip(sheet_calls, ms):
+            ctx.count(('e2e-sheet',) + key, kind='e2e:sheet', sample=dict(case, impl=im))
+            if not skip_model(m) and not same(m, im):
+                ctx.divergence(case, im, m, 'Model/CseCells.v load_members / member_range = the CSE_INDEX '
+                                            'texts and =index(range, i, j) formulas of the member cells')
     # the same end-to-end values from the models: fit_to_range (h, w) (op_fixup a o b)
     if ctx.model and model_calls:
         first = [dec_res(x) for x in ctx.model.batch(
@@ -514,6 +569,26 @@ def end_to_end(ctx, fixup, FUNCS):
                 m = ('ok', sq_model(m[1]))
             if not skip_model(m) and not same(m, got):
                 ctx.divergence(case, got, m, 'fit_to_range(op_fixup a o b) in the models = evaluate(target range)')
+
+
+def sheet_side(comp, r0, c0, h, w):
+    """What load_array_formulas wrote into the cells of the reference range and what cell_to_formula
+    makes of it: (row, col, i, j, height, width, start_col, start_row, end_col, end_row) per member."""
+    from pycel.excelutil import AddressRange
+    ws = comp.excel.workbook['Sheet']
+    out = []
+    for row in range(r0, r0 + h):
+        for cl in range(c0, c0 + w):
+            text = ws.cell(row=row, column=cl).value
+            assert text.startswith('=CSE_INDEX(') and text.endswith(')'), text
+            i, j, hh, ww = (int(x) for x in text[:-1].rsplit(',', 4)[1:])
+            f = comp.excel.get_formula_or_value(f'Sheet!{col(cl)}{row}')
+            assert f.startswith('=index(') and f.endswith(')'), f
+            rng, fi, fj = f[len('=index('):-1].rsplit(',', 2)
+            assert (int(fi), int(fj)) == (i, j), f
+            a = AddressRange(rng)
+            out.append((row, cl, i, j, hh, ww, a.start.col_idx, a.start.row, a.end.col_idx, a.end.row))
+    return tuple(out)
 
 
 def enc_m(v):
